@@ -7,7 +7,7 @@ CONSTANTS
   GuardFix = TRUE
   CleanupFix = FALSE
   SerialReg = TRUE
-  MaxBatch = 0
+  MaxBatch = 2
   RetryEnds = TRUE
-INVARIANTS AllGone NoCrash NewestSender
+INVARIANTS AllGone NoCrash NewestSender RetryCanEnd
 CHECK_DEADLOCK FALSE
